@@ -388,7 +388,10 @@ def assignment(draw, env, depth, quals_ok=True, allow_track=True):
         key = draw(st.sampled_from(["k", "m", "total"]))
         rhs, typ = value_expr(draw, env, depth)
         env.tracks = getattr(env, "tracks", set()) | {(name, key)}
-        return ["=", name, [], key, rhs]
+        tq = []
+        if quals_ok and getattr(env, "and_mode", True) and draw(st.sampled_from([False, False, True])):
+            tq = [draw(st.sampled_from(["latch", "onchange", "notnone", "nocontrib"]))]
+        return ["=", name, tq, key, rhs]
     name = draw(st.sampled_from(["x", "y", "z", "w", "n1", "s1"]))
     prev = env.vars.get(name)
     rhs, typ = value_expr(draw, env, depth)
